@@ -444,4 +444,43 @@ def rule_e(ctx: Ctx) -> None:
                 'with the interpreter default recursion limit.')
 
 
-RULES = [rule_a, rule_b, rule_c, rule_d, rule_e]
+RAISING_MODES = {
+    # builtin call forms that raise a *non-library* exception on data the caller does not control
+    'zip(strict=True)': lambda c: isinstance(c.func, ast.Name) and c.func.id == 'zip' and any(k.arg == 'strict' and isinstance(k.value, ast.Constant) and k.value.value is True
+                                                                                            for k in c.keywords),
+}
+
+
+def rule_f(ctx: Ctx) -> None:
+    """Helpers that digest attribute values of the *instance* (location hints, xsi attributes) must not use builtin forms that
+    raise ValueError on malformed input: their callers at validation time are not guarded (a dangling xsi:schemaLocation token
+    is ignored, not an error of another type)."""
+    rule = 'C11.f'
+    idx = ctx.idx
+    hits = []
+    scanned = 0
+    for f in idx.iter_functions():
+        if isinstance(f.node, ast.Lambda) or f.module.name.startswith(('xmlschema.testing', 'xmlschema.cli', 'xmlschema.extras', 'xmlschema.exports')):
+            continue
+        scanned += 1
+        for c in calls(f.node):
+            for what, pred in RAISING_MODES.items():
+                if pred(c):
+                    hits.append((f, c, what))
+    # positive control: the predicate recognises the form it is meant for
+    probe = ast.parse('list(zip(a[0::2], a[1::2], strict=True))').body[0].value.args[0]
+    if not RAISING_MODES['zip(strict=True)'](probe):
+        raise AnalysisError(f'{rule}: self-check failed (zip(strict=True) not recognised)')
+    ctx.floor(rule, 'library functions scanned for raising builtin modes', scanned, 800)
+    for f, c, what in hits:
+        # accepted only inside a try that catches ValueError in the same function
+        enc = enclosing_try_handlers(c, enclosing_map(f.node))
+        ok = any('ValueError' in text(h.type) or h.type is None for _, hs in enc for h in hs)
+        ctx.ob(rule, f'{f.qualname.split(".", 1)[-1]}: `{text(c)[:50]}` ({what}) is guarded against ValueError where it is called', f.loc(c), ok,
+               '' if ok else 'raises ValueError on input of uneven length; the function is reached from validation (check_dynamic_context, location hints) without a '
+               'handler: lax validation raises ValueError instead of returning a verdict', key=f'{f.qualname}|{what}')
+    ctx.explain('C11.f: scan of the library functions for builtin call forms that raise ValueError on malformed instance data '
+                '(zip(strict=True)); each hit must sit inside a handler of ValueError.')
+
+
+RULES = [rule_a, rule_b, rule_c, rule_d, rule_e, rule_f]
